@@ -263,3 +263,8 @@ T('C16', 'PARTIAL: append semantics and scratch independence hold by constructio
   _TB + 'Go string(b) copy semantics is trusted.', 'Coq model + run-time frame and aliasing checks')
 T('C17', 'PROOF, complete for the string functions: CompatFacts.compat_spec (model = Table 3-7 sanitiser), sanitize_valid / _valid_id / _idempotent / _app_valid, compat_bytes_append. Correspondence: all 1-byte, most 2-byte, class-wise 3/4-byte strings, destinations with every small (len,cap); tree helpers by correspondence (argument-unmodified check)',
   _TB, 'Coq proof with exhaustive small-scope correspondence')
+
+PROPS['C16'].update(run_files=['Tie.v', 'TieWf.v', 'PropsC16.v'], static_files=MACH_STATIC + ['Frame.v'])
+PROPS['C19'].update(run_files=['Tie.v', 'TieAlloc.v', 'TieWf.v', 'PropsC16.v'], static_files=MACH_STATIC + ['AllocSpec.v', 'Frame.v'])
+TEXT['C16']['level'] = ('PROOF for the part a pure model carries + run-time checks for the heap: Frame.dst_frame (for ANY machine: running with destination d0 = running with the empty destination, result prefixed by d0) lifted to PropsC16: ReadStringBytes / UnescapeStringContent append exactly what they produce with an empty destination, same offset and error; ReadString results do not depend on the scratch buffer. Heap facts a model cannot exhibit (input never written, destination prefix untouched, returned strings not aliasing buffers) are checked at run time: input snapshots, 0xAA-filled spare capacity, overwrite of input and buffers after the call, string-buffer histories')
+TEXT['C19']['level'] = ('PARTIAL: proof-of-model + measurement. Coq: (1) Frame.rerun_no_growth / no_growth_when_warm / warm_after_use instantiated in PropsC16: a machine run with the stack returned by an earlier run on a document at least as deeply nested performs zero stack-growth events; (2) the inventory of allocation-capable expressions and call targets of every covered function, regenerated from /repo on every run, equals the recorded one whose every entry is capacity-guarded or on an error path (AllocSpec.v, TieAlloc). Run time: testing.AllocsPerRun = 0 on ~2000 warm successful calls over 30 functions on every conversion path and depth up to 10000; >= 1 on a cold buffer')
